@@ -21,7 +21,7 @@ CHECKS = {
             "Histories of sets, rand_mode toggles, rangelist/list edits and five call kinds over a two-object world with sub-objects; "
             "TLC checks after every call that every path outside UsedRand(call) in all objects is unchanged and that probe tables "
             "equal Sol computed from the current non-random values and container contents.", "6 C03"),
-    "C04": ("TLA+ trace validation: list semantics of Expr.tla on the facade view; truth tables over (scalars, elements); (size, elements) candidates for random-size lists",
+    "C04": ("TLA+ trace validation: list semantics of Expr.tla on the facade view; truth tables over (scalars, elements); (size, elements) candidates for random-size lists; TLC model checking of the API machine on lists (MC_VscList) whose behaviours are replayed into the library",
             "Fixed-size lists with foreach over element / index / both, index arithmetic, sum, unique, membership and literal indices get "
             "exhaustive truth tables before and after append/extend/assign/clear/setitem; random-size lists (bounded size) are called "
             "with every size pinned, TLC deciding satisfiability over all (size, elements) candidates; every call logs the "
@@ -39,7 +39,7 @@ CHECKS = {
             "Toggle/construct/call histories over a three-level class hierarchy with overridden block names and holder objects with "
             "nested and list-element instances; the spec keeps one enabled flag per (instance, block name) and resolves the "
             "most-derived block by name; each table must equal Sol.", "6 C07"),
-    "C16": ("TLA+ trace validation with fault injection: idle_after on every event + remainder of the trace accepted from the unchanged state",
+    "C16": ("TLA+ trace validation with fault injection (every statement position of nested constraint contexts, callbacks, with-bodies, unsatisfiable calls): idle_after on every event + remainder of the trace accepted from the unchanged state; TLC model checking of the construction stacks (B_Ctor)",
             "User exceptions injected at pre/post callbacks of any composite, in with-block bodies and in constraint bodies during "
             "construction, and unsatisfiable calls, followed by constructions, calls and truth tables; every event logs the five "
             "construction stacks plus leftover override nodes and solver handles, which TLC requires to be zero.", "6 C16"),
@@ -48,7 +48,7 @@ CHECKS = {
             "foreach; rows are solutions, all their single-field mutations and random rows over the whole tree, so an aliased "
             "reference or a block of a non-random sub-object being enforced changes a row; free-standing calls on sub-object roots.",
             "6 C08"),
-    "C09": ("TLA+ trace validation (Trace_Stab): memo keyed by (class, stream origin, call history) shared by runs in different processes/environments",
+    "C09": ("TLA+ trace validation (Trace_Stab): memo keyed by (class, stream origin, call history) shared by runs in different processes/environments; TLC model checking of the reference/copy discipline of random states (B_RandState |= RandStability stream values)",
             "Each history runs in 3-4 fresh processes differing in PYTHONHASHSEED, interleaved unrelated activity and diagnostic "
             "settings; RandStability.tla models seeds, snapshots (independent copies) and restores (argument copied) as stream "
             "values and requires every observation of one key to be identical; draws from Python's global generator inside a call "
@@ -65,14 +65,14 @@ CHECKS = {
             "Exact marginals of the earlier variable from complete explorations; uniform when the feasible values fill the inferred "
             "range (hook); program pairs that differ only in how many later values accompany each earlier value must have equal "
             "marginals (memo in the specification state).", "6 C20"),
-    "C10": ("TLA+ trace validation (Trace_VscCov): TLC recomputes the declarative bin partition and every counter after every sample",
+    "C10": ("TLA+ trace validation (Trace_VscCov): TLC recomputes the declarative bin partition and every counter after every sample; TLC model checking of the transcribed range-list normalisation and bin partitioning (B_Bins, B_MkColl |= Cov.tla); MC_VscCov behaviours replayed into real covergroups",
             "Random bin specifications over types of 2..8 bits, each sampled with every value of the type plus repeats and gated-off "
             "samples; every event logs all regular/ignore/illegal counters and TLC requires them to equal the counters of the "
             "specification, whose bins are Partition(Values \\ Excluded, n) from Cov.tla.", "6 C10"),
     "C11": ("TLA+ trace validation (Trace_VscCov): cross = row-major product of flat bins, incremented iff all iffs hold and every coverpoint hit",
             "Crosses of 2..3 coverpoints of mixed bin kinds with iff on cross and coverpoints, sampled with all value combinations and "
             "gated sequences; TLC checks the number of cross bins and that exactly the bin of the combination is incremented.", "6 C11"),
-    "C12": ("TLA+ trace validation (Trace_VscCov): type data defined as bin-wise sum of same-structure instances; exact weighted at_least coverage",
+    "C12": ("TLA+ trace validation (Trace_VscCov): type data defined as bin-wise sum of same-structure instances; exact weighted at_least coverage; TLC model checking of the coverage machine (MC_VscCov) and of the sampling pipeline with its caches (B_CovSample |= MC_VscCov); MC_VscCov behaviours replayed into real covergroups",
             "Populations of 1..3 shapes x 1..3 instances (same and different classes, parameterised variants), interleaved creation "
             "and sampling, at_least and weight options; after every event TLC checks the instance/type partition, the sums, the "
             "coverage figures against the exact rational definition, range, monotonicity and 100 iff all covered.", "6 C12"),
